@@ -52,11 +52,12 @@ CHECKS = {
    design='7/C19', technique='Coq proof of guard soundness at every width + differential correspondence'),
 
  'C08': dict(
-   text='Proof: C08_imposed_repr - for all operand formats of the domain (n_word<=12, 0<=n_frac<=n_word), every imposed format up to 26 bits (C08_sizing_policies_covered: every same/largest/smallest/optimal format is one), all 10 governing '
-        'mode pairs and arrays of any length, the value (repr) method - also used by every out_like route - returns Spec.quantize of the exact result with its flags; C08_raw_optimal: the integer-code (raw) method with optimal sizing at every width; '
-        'C08_unary: - + abs exact whenever representable. The raw method INTO a narrower imposed format (negative rescale through a float factor, then one rounding) is not yet a theorem: it is modelled (Arith.raw_elem/mscale) and rests on the '
-        'correspondence run, which compares implementation, Spec and model for both methods, every sizing policy, out / out_like targets, constants on either side with op_input_size same/best, governing modes and identity z is out.',
-   design='7/C08', technique='Coq proof (repr method, sizing coverage, unary) + differential correspondence for raw-into-imposed'),
+   text='Proof: for all operand formats of the domain (n_word<=12, 0<=n_frac<=n_word), every imposed format up to 26 bits (C08_sizing_policies_covered: every same/largest/smallest/optimal format is one), all 10 governing '
+        'mode pairs and arrays of any positive length, BOTH methods return Spec.quantize of the exact result with all its flags: C08_imposed_repr (value method, also used by every out_like route) and C08_imposed_raw (integer-code method, '
+        'the default: rescaling by integer or float factors, NumPy dtype promotion int64/uint64/float64, set_val(raw=True)); C08_methods_agree; C08_raw_optimal: the raw method with optimal sizing at every width; '
+        'C08_unary: - + abs exact whenever representable. The choice of the governing configuration and of the target format (out, out_like, op_out, op_out_like, constants with op_input_size) is glue: the correspondence run '
+        'compares implementation, Spec and model for both methods, every sizing policy, out / out_like targets, constants on either side, governing modes and identity z is out.',
+   design='7/C08', technique='Coq proof (both methods into imposed formats, sizing coverage, unary) + differential correspondence for the configuration/target selection glue'),
 
  'C09': dict(
    text='Proof (reference codes, all formats): the raw quotient floor(a*2^k/b) lies below the exact quotient by less than one LSB (C09_truediv_within_one_lsb), is exact when representable, and is inside the optimal format '
